@@ -100,6 +100,10 @@ func semanticTokensForTraversal(traversal hcl.Traversal, fileBytes []byte) []lan
 			if rng.Start.Byte < len(fileBytes) && fileBytes[rng.Start.Byte] == '.' {
 				idxRange.End = rng.End
 			}
+			// unterminated index (foo["bar) has no closing bracket
+			if rng.End.Byte > 0 && rng.End.Byte <= len(fileBytes) && fileBytes[rng.End.Byte-1] != ']' {
+				idxRange.End = rng.End
+			}
 
 			if ts.Key.Type() == cty.String {
 				tokens = append(tokens, lang.SemanticToken{
